@@ -354,4 +354,16 @@ def usMainOK (ds usMain : Array Nat) : Bool :=
     let u := usMain[i]!
     u == ds.size || (u < ds.size && u != i && ds[u]! == i)
 
+/-- the documented preconditions of `subbasins_pfafstetter`, executable (hypotheses of theorem `pfaf_ok`): the
+cell order is downstream-first and holds every cell of the network, `idxs_us_main` picks an inflowing cell for
+every cell that has one, the upstream area is strictly larger at the downstream cell, the pits are distinct
+pits of the network -/
+def pfPreOK (pits : List Nat) (ds : Array Nat) (seq : List Nat) (usMain : Array Nat)
+    (uparea : Array Int) : Bool :=
+  isTopo ds seq && usMainOK ds usMain &&
+  (List.range ds.size).all (fun i => !(decide (ds[i]! < ds.size)) || seq.contains i) &&
+  seq.all (fun i => ds[i]! == i ||
+    (decide (usMain[ds[i]!]! < ds.size) && decide (uparea[i]! < uparea[ds[i]!]!))) &&
+  decide pits.Nodup && pits.all (fun p => seq.contains p && ds[p]! == p)
+
 end Pf
